@@ -181,7 +181,7 @@ def T(mod, *names, kind="full", ns=None):
     return [dict(name=f"Lz4V.Props.{ns or mod}.{n}", kind=kind, module=f"Lz4V.Props.{mod}") for n in names]
 
 T_FAST = T("C01fast", "decode_emitAll", "c11_fast", "c01_fast")
-T_HC = T("C01hc", "c11_hc", "c01_hc")
+T_HC = T("C01hc", "c11_hc", "c01_hc") + T("C01hc", "side_hash_in_range", "side_win_le_ht", kind="side condition on regenerated constants")
 T_GO = T("C04go", "c03_go") + T("C04go", "c04_go_partial", "c04_go_indep_partial", kind="full under the model's documented assumption len(dst) < 2^63") \
     + T("C04go", "c04_go_unbounded_false", kind="counterexample (model artefact: fixed doubling fuel)")
 
@@ -267,6 +267,20 @@ j_c08 = j_and(j_orc("trace", "frame", "accept"),
               j_notes(r"GOROUTINE-LEAK\S*|ROUNDTRIP-FAIL\S*|WRONG-CONTENT|NOT-PREFIX|TRUNC-ACCEPTED|EXPECTED-\S+|SECOND-CLOSE-EMITS|HANG\S*",
                       "concurrent pipeline misbehaves", "ordered, complete, no hang, no leaked goroutine, valid event trace"))
 
+def x_c13_4g(run):
+    """really stream 2^32+20 bytes through the incremental checksum; independent streaming reference"""
+    import os, subprocess
+    from .common import Violation, BIN
+    p = subprocess.run([os.path.join(BIN, "vh"), "x4g", str(run.seed)], stdout=subprocess.PIPE, stderr=subprocess.PIPE, timeout=600)
+    out = p.stdout.decode()
+    run.cov["evaluations"] += 23
+    run.cov["hist"]["4GiB-stream-lengths"] = 23
+    for l in out.splitlines():
+        if l.startswith("MISMATCH"):
+            run.viol.append(Violation("O", "streaming checksum of a >= 4 GiB input differs from reference XXH32",
+                                      case=f"vh x4g {run.seed}  # {l}", impl=l, expected="equal"))
+    run.say("C13:", out.strip().splitlines()[-1] if out.strip() else "x4g produced no output")
+
 def x_c20(run):
     from .c20 import x_c20 as f
     f(run)
@@ -298,7 +312,7 @@ PROPS = {
                theorems=T_C19, exhaustive_thorough=True),
     "C12": dict(runs=[dict(DEC_ASM, judge=j_c12), dict(DEC_GO, judge=j_c12)], extra=[x_c12],
                 theorems=T("C04go", "c04_go_partial") + T("C03asm", "c04_asm_partial")),
-    "C13": dict(runs=[dict(XXH, judge=j_c13)], theorems=T("C13", "oneshot", "stream", "stream_reset")),
+    "C13": dict(runs=[dict(XXH, judge=j_c13)], extra=[x_c13_4g], theorems=T("C13", "oneshot", "stream", "stream_reset")),
     "C14": dict(runs=[dict(CMP, judge=j_c14b), FW("conc", judge=j_c08, env={"VERIF_SCHED": "4"}), FW("fw", judge=j_c02w, env={"VERIF_SCHED": "5"})],
                 extra=[x_c14_groups], theorems=[]),
 }
